@@ -32,7 +32,7 @@ REQUIRED_PROBES = ("traversal_reversed",)
 
 
 def plan(tier):
-    return {"cases": 128 if tier == "quick" else 1600, "shards": 16,
+    return {"cases": 256 if tier == "quick" else 1600, "shards": 16,
             "shard_budget_s": 400 if tier == "quick" else 2400, "watchdog_s": 900 if tier == "quick" else 3600}
 
 
